@@ -142,6 +142,8 @@ pub struct RunCfg {
     pub strategy: Strategy,
     /// 1/n of the weak CAS attempts are made to fail spuriously (0 = never)
     pub spurious_den: u32,
+    /// at most this many injected failures in a row per thread (a weak CAS may legally fail any number of times)
+    pub spurious_cap: u32,
     pub step_budget: u64,
     pub quiet_limit: u64,
     pub keep_trace: bool,
@@ -149,7 +151,7 @@ pub struct RunCfg {
 
 impl RunCfg {
     pub fn native() -> RunCfg {
-        RunCfg { engine: Engine::Native, seed: 0, strategy: Strategy::Uniform, spurious_den: 0, step_budget: 0, quiet_limit: 0, keep_trace: false }
+        RunCfg { engine: Engine::Native, seed: 0, strategy: Strategy::Uniform, spurious_den: 0, spurious_cap: 2, step_budget: 0, quiet_limit: 0, keep_trace: false }
     }
 }
 
@@ -386,6 +388,7 @@ mod e2 {
         rng: Rng,
         strategy: Strategy,
         spurious_den: u32,
+        spurious_cap: u32,
         spur_streak: Vec<u32>,
         fail_streak: Vec<u32>,
         prio: Vec<i64>,
@@ -462,7 +465,7 @@ mod e2 {
             }
         }
         let mut spur = false;
-        if st.pending_kind[chosen] == Kind::Cas && st.spurious_den != 0 && st.spur_streak[chosen] < 2 && st.rng.chance(1, st.spurious_den as u64) {
+        if st.pending_kind[chosen] == Kind::Cas && st.spurious_den != 0 && st.spur_streak[chosen] < st.spurious_cap && st.rng.chance(1, st.spurious_den as u64) {
             spur = true;
             st.spur_streak[chosen] += 1;
             st.spurious_injected += 1;
@@ -626,6 +629,7 @@ mod e2 {
                 rng,
                 strategy: cfg.strategy,
                 spurious_den: cfg.spurious_den,
+                spurious_cap: cfg.spurious_cap,
                 spur_streak: vec![0; n],
                 fail_streak: vec![0; n],
                 prio,
